@@ -666,6 +666,7 @@ TARGETS = [
     ("Src_authz", "fragment_encoding_src", "idpyoidc.server.endpoint:fragment_encoding", {}),
     ("Src_authn", "AuthnEvent_is_valid_src", "idpyoidc.server.authn_event:AuthnEvent.is_valid", {}),
     ("Src_current", "Current_get_src", "idpyoidc.client.current:Current.get", {}),
+    ("Src_current", "is_error_message_src", "idpyoidc.message.oauth2:is_error_message", {}),
     ("Src_grant", "find_token_src", "idpyoidc.server.session.grant:find_token", {}),
     ("Src_grant", "Grant_get_token_src", "idpyoidc.server.session.grant:Grant.get_token", {}),
 ]
